@@ -24,13 +24,16 @@ func (c19) Rule() string {
 	return "A case is a seeded situation: a branch rule needing 1-3 of persons 1-3 (person 4 defined but not trusted), optionally a global threshold rule, optionally a file rule (1-2 of a subset of the persons) on the first or on every feature file, a feature history (1-3 commits by various actors) that is ahead of or diverged from the branch, and prior approvals for exactly the predicted merge (authorizations and code-review approvals by any subset of persons, possibly stale). The real VerifyMergeable (in a third of the cases its for-a-commit form) gives the prediction; then, for each candidate recorder (a trusted person who has not approved, one who has, the untrusted person 4, an outsider key, unsigned) the same operations are re-executed from scratch (exact replay = a fork of the same state), the fast-forward or the pre-built merge commit carrying the predicted tree is recorded by that candidate, and VerifyRefFull is run. Oracle: the three-way contract of the statement per recorder. Distinct = distinct (threshold, global rule, approval set, shape, prediction, per-recorder outcome vector); non-trivial = the prediction was 'possible' in at least one form or approvals were present."
 }
 func (c19) Components() map[string]string {
-	return map[string]string{"internal/policy (verifyMergeable, verifier)": "real", "internal/attestations": "real", "GetMergeTree": "stub (SimStore per-path three-way merge; real `git merge-tree` is exercised by the git-backed checks)", "gitstore.Storer": "stub (SimStore)"}
+	return map[string]string{"internal/policy (verifyMergeable, verifier)": "real", "internal/attestations": "real", "GetMergeTree": "stub (SimStore per-path three-way merge) in SimStore cases; real pkg/gitinterface GetMergeTree (`git merge-tree`) in the real-git slice (workers 0-1, every 25th of their cases)", "gitstore.Storer": "stub (SimStore)"}
 }
 func (c19) Assumptions() []string {
 	return []string{"the branch's previous entry is unskipped and no policy or attestation entry lies between prediction and merge (by construction)", "with a file rule present only fast-forward merges are compared: a recorded merge commit is itself subject to the file rule and signed by someone the prediction cannot know"}
 }
 
-func (c19) Generate(r *core.Rand, tier string, idx uint64) *core.Case {
+func (d c19) Generate(r *core.Rand, tier string, idx uint64) *core.Case {
+	if c19IsGitCase(idx) {
+		return d.generateGit(r, tier, idx)
+	}
 	c := &core.Case{Property: "C19", Engine: "simstore", Config: map[string]int{}, Flags: map[string]bool{}}
 	b := &opBuilder{}
 	thr := r.Range(1, 3)
@@ -123,6 +126,9 @@ type c19Candidate struct {
 }
 
 func (d c19) Execute(c *core.Case) *core.Result {
+	if c.Engine == "git" {
+		return d.executeGit(c)
+	}
 	res := &core.Result{}
 	keys := []int{0, 1, 2, 3, 4, appKey, outsiderKey, app2Key}
 	cands := []c19Candidate{{"person-1", 1, -2}, {"person-2", 2, -2}, {"person-3", 3, -2}, {"person-4-untrusted", 4, -2}, {"outsider", 6, -2}, {"unsigned", 1, -1}}
